@@ -1627,13 +1627,7 @@ func (i *interpreter) sliceSym(x, lo, hi, max value) value {
 // on the out-of-range side (a branch when idx is symbolic).
 func (i *interpreter) indexSym(idx value, n int) int64 {
 	if sv, ok := idx.(symVal); ok {
-		var inb *Term
-		w := sv.t.W
-		if kindSigned(sv.k) {
-			inb = tAnd(tCmp(OpSle, tConst(w, 0), sv.t), tCmp(OpSlt, sv.t, tConst(w, uint64(n))))
-		} else {
-			inb = tCmp(OpUlt, sv.t, tConst(w, uint64(n)))
-		}
+		inb := inBoundsTerm(sv, n)
 		if !i.ex.Branch(inb) {
 			panic(runtimeErrorString(fmt.Sprintf("index out of range [symbolic] with length %d", n)))
 		}
@@ -1671,11 +1665,7 @@ func (i *interpreter) indexValue(elems []value, idx value) value {
 	}
 	w := sv.t.W
 	var inb *Term
-	if kindSigned(sv.k) {
-		inb = tAnd(tCmp(OpSle, tConst(w, 0), sv.t), tCmp(OpSlt, sv.t, tConst(w, uint64(n))))
-	} else {
-		inb = tCmp(OpUlt, sv.t, tConst(w, uint64(n)))
-	}
+	inb = inBoundsTerm(sv, n)
 	if !i.ex.Branch(inb) {
 		panic(runtimeErrorString(fmt.Sprintf("index out of range [symbolic] with length %d", n)))
 	}
@@ -1695,4 +1685,21 @@ func (i *interpreter) appendMon(fr *frame, dst, src []value) []value {
 		i.ex.StoreMon.onAllocSlice(out[:cap(out)])
 	}
 	return out
+}
+
+// inBoundsTerm: 0 <= idx < n for an index of the index's own width (n may
+// exceed what that width can represent, e.g. a [256]T table indexed by a byte).
+func inBoundsTerm(sv symVal, n int) *Term {
+	w := sv.t.W
+	if kindSigned(sv.k) {
+		nonneg := tCmp(OpSle, tConst(w, 0), sv.t)
+		if w < 64 && uint64(n) > mask(w-1) {
+			return nonneg
+		}
+		return tAnd(nonneg, tCmp(OpSlt, sv.t, tConst(w, uint64(n))))
+	}
+	if w < 64 && uint64(n) > mask(w) {
+		return tBool(true)
+	}
+	return tCmp(OpUlt, sv.t, tConst(w, uint64(n)))
 }
